@@ -307,4 +307,38 @@ def obligations(mir_text, model_state_rs=None):
     if not {"send", "timers_set", "timers_cancel"} <= kinds or not (kinds & {"choices_insert", "choices_remove"}):
         raise Unsupported(f"process_commands: shape not recognised (command kinds seen: {sorted(kinds)})")
     info["process_commands"] = {"function": body2.name, "blocks": len(body2.blocks), "paths": len(outs2)}
+
+    # ---------------------------------------------------------------- init_states (start-up step)
+    text = find(mir_text, "init_states")
+    if text is None:
+        raise Unsupported("ActorModel::init_states not found in the MIR")
+
+    def setup_is(st, body):
+        st.locals[body.params[0]] = st.alloc(("ref", st.alloc(("opaque", "param.self"))))
+
+    body3, ex3, outs3, heads3 = _run(text, setup_is, hl)
+    n_start = 0
+    for i, o in enumerate(outs3):
+        st = o.st
+        g = z3.And(*st.pc) if st.pc else z3.BoolVal(True)
+        evs = st.events
+        names_ = [e[0] for e in evs]
+        tagp = f"init_states path {i} [" + ",".join(names_) + f"]->{o.kind}"
+        starts = [e for e in evs if e[0] == "on_start"]
+        add(f"{tagp}: start-up invokes no handler other than on_start", not any(n in names_ for n in ("on_msg", "on_timeout", "on_random")), g)
+        if not starts:
+            add(f"{tagp}: commands are processed only for an actor that was started", "process_commands" not in names_, g)
+            continue
+        n_start += 1
+        add(f"{tagp}: one on_start per actor and round of the start-up loop", len(starts) == 1, g)
+        pcs = [e for e in evs if e[0] == "process_commands"]
+        ok = len(pcs) == 1 and evs.index(pcs[0]) > evs.index(starts[0])
+        add(f"{tagp}: the start-up commands are processed exactly once, after on_start", ok, g)
+        if ok:
+            h, pc_ = starts[0], pcs[0]
+            out_obj = _target_origin(ex3, h[2], h[1][-1])
+            add(f"{tagp}: process_commands gets the Out that on_start filled, for the same actor id", ex3.origin(pc_[1][2]) == out_obj and out_obj.startswith("out#") and ex3.origin(pc_[1][1]) == ex3.origin(h[1][1]), g)
+    if n_start == 0:
+        raise Unsupported("init_states: no path that starts an actor found")
+    info["init_states"] = {"function": body3.name, "blocks": len(body3.blocks), "paths": len(outs3)}
     return res, info
